@@ -78,6 +78,37 @@ CHECK_DEADLOCK FALSE
 `, lines, shells)
 }
 
+// inAttributeAll names every property the refusal of event at of trace t contradicts.
+func inAttributeAll(t []brk.TraceEv, at int, inv string) [][2]string {
+	p, a := inAttribute(t[at], inv)
+	out := [][2]string{{p, a}}
+	e := t[at]
+	if inv == "" && (e["e"] == "Log" || e["e"] == "Write") {
+		// what did this shell do just before?  A record or a further write right after a
+		// successful write on a flushable writer means the line was never flushed.
+		kind := ""
+		for _, x := range t[:at] {
+			if x["e"] == "Attach" && fmt.Sprint(x["s"]) == fmt.Sprint(e["s"]) {
+				kind, _ = x["k"].(string)
+			}
+		}
+		for i := at - 1; i >= 0; i-- {
+			x := t[i]
+			if fmt.Sprint(x["s"]) != fmt.Sprint(e["s"]) || (x["e"] != "Write" && x["e"] != "Flush" && x["e"] != "Log") {
+				continue
+			}
+			if x["e"] == "Write" && x["ok"] == true && kind != "plain" && kind != "" {
+				out = append([][2]string{{"C02", "input:line-not-flushed"}}, out...)
+				if e["e"] == "Log" {
+					out = append(out, [2]string{"C11", "input-log:record-before-delivery"})
+				}
+			}
+			break
+		}
+	}
+	return out
+}
+
 func inAttribute(e brk.TraceEv, inv string) (string, string) {
 	switch inv {
 	case "LogMatchesDelivery":
@@ -208,7 +239,8 @@ func inCampaign(r *ev.Run, prop string) {
 			idx[i] = i
 		}
 		var rej []int
-		if err := findRejected("BrokerInTrace", cfgText, idx, traces, 4, &rej); err != nil {
+		reportedIn := map[string]bool{}
+		if err := findRejected("BrokerInTrace", cfgText, idx, traces, 3, &rej); err != nil {
 			r.Inconclusive("bisecting rejected traces: %v", err)
 			return
 		}
@@ -218,14 +250,23 @@ func inCampaign(r *ev.Run, prop string) {
 				r.Inconclusive("locating refused event: %v", err)
 				continue
 			}
-			p, aspect := inAttribute(traces[k][at], inv)
 			ru := which[k]
 			detail := map[string]any{"kind": "BrokerIn-trace", "io": ru.opts.IO, "settle": ru.opts.Settle, "seed": ru.opts.Seed,
 				"schedule": ru.sched, "trace": traces[k], "refused_event_index": at, "refused_event": traces[k][at], "violated_invariant": inv}
+			attrs := inAttributeAll(traces[k], at, inv)
+			mine := ""
+			for _, pa := range attrs {
+				if pa[0] == prop {
+					mine = pa[1]
+				}
+			}
 			switch {
-			case p == "":
+			case attrs[0][0] == "" && mine == "":
 				r.Inconclusive("input trace rejected at a harness event %v: %v", traces[k][at], traces[k])
-			case p == prop:
+			case mine != "" && reportedIn[mine]:
+				// the same refusal again
+			case mine != "":
+				reportedIn[mine] = true
 				hits := 0
 				for n := 0; n < 4 && hits < 2; n++ {
 					rr := brk.RunIn(ru.sched, ru.opts)
@@ -235,19 +276,22 @@ func inCampaign(r *ev.Run, prop string) {
 					if ok2, _, err := traceAccepted("BrokerInTrace", cfgText, [][]brk.TraceEv{rr.Trace}); err == nil && !ok2 {
 						at2, inv2, _ := firstRefused("BrokerInTrace", cfgText, rr.Trace)
 						if at2 >= 0 {
-							if p2, a2 := inAttribute(rr.Trace[at2], inv2); p2 == p && a2 == aspect {
-								hits++
+							for _, pa := range inAttributeAll(rr.Trace, at2, inv2) {
+								if pa[0] == prop && pa[1] == mine {
+									hits++
+									break
+								}
 							}
 						}
 					}
 				}
 				if hits >= 2 {
-					r.Violation(aspect, detail)
+					r.Violation(mine, detail)
 				} else {
-					r.Inconclusive("rejected input trace did not reproduce (%s): %v\n trace %v at %d", aspect, ru.sched, traces[k], at)
+					r.Inconclusive("rejected input trace did not reproduce (%s): %v\n trace %v at %d", mine, ru.sched, traces[k], at)
 				}
 			default:
-				fmt.Printf("note: rejected input trace attributed to %s (%s); reported by that property's check\n", p, aspect)
+				fmt.Printf("note: rejected input trace attributed to %v; reported by that property's check\n", attrs)
 				if os.Getenv("VERIF_DEBUG") != "" {
 					fmt.Printf("  at %d of %v (%+v)\n", at, traces[k], ru.opts)
 				}
